@@ -52,6 +52,24 @@ def node_attrs(program: Program, c: ClassInfo) -> set[str]:
                         if it is not None and any(isinstance(x, ast.Name) and x.id == v.id for x in ast.walk(tgt)) \
                                 and isinstance(it, ast.Attribute) and isinstance(it.value, ast.Name) and it.value.id == selfname:
                             out.add(it.attr)
+    # ... and attributes that a constructor fills from a parameter annotated with a package class that renders itself
+    # (Schema._parent: Schema | None): such a child must be rendered with the context too, Node or not
+    for k in c.mro:
+        init = k.methods.get("__init__")
+        if init is None or not init.params:
+            continue
+        sn = init.params[0]
+        anns = {a.arg: a.annotation for a in init.node.args.posonlyargs + init.node.args.args + init.node.args.kwonlyargs if a.annotation is not None}
+        for n in ast.walk(init.node):
+            if isinstance(n, ast.Assign) and isinstance(n.value, ast.Name) and n.value.id in anns:
+                for t in n.targets:
+                    if isinstance(t, ast.Attribute) and isinstance(t.value, ast.Name) and t.value.id == sn:
+                        names = {x.id for x in ast.walk(anns[n.value.id]) if isinstance(x, ast.Name)}
+                        names |= {w for x in ast.walk(anns[n.value.id]) if isinstance(x, ast.Constant) and isinstance(x.value, str) for w in __import__("re").findall(r"[A-Za-z_]\w*", x.value)}
+                        for nm in names:
+                            kc = program.find_cls(nm)
+                            if kc is not None and kc.resolve("get_sql") is not None:
+                                out.add(t.attr)
     return out
 
 
@@ -163,6 +181,22 @@ def check(program: Program, run: Run) -> None:
                 run.finding(f"C08/ctx-rederive:{origin}:{k}",
                             f"{origin} (at {s['func']}) replaces ctx.{k} with `{show(v)[:80]}` instead of inheriting it: a node built with another (generic) class inside a dialect statement keeps its own convention",
                             where=where, rule="R1")
+    # a context bound before a loop over operands / clauses and rebound inside it is seen, rebound, by every later
+    # iteration: the flags (and conventions) an operand is rendered with then depend on the operands before it
+    seen_carried = set()
+    for c_, (skv_, ev_) in skeletons(program).items():
+        for note in getattr(ev_, "notes", []):
+            if note and note[0] == "ctx-loop-carried":
+                src_, name_ = note[1], note[2]
+                key_ = (src_[0] if src_ else c_.qualname, name_)
+                if key_ in seen_carried:
+                    continue
+                seen_carried.add(key_)
+                run.ob("C08 no rendering context is rebound inside the loop that consumes it", f"{key_[0]}:{name_}", False, where=f"{src_[2]}:{src_[1]}" if src_ else "")
+                run.finding(f"C08/context-carried-between-iterations:{key_[0]}:{name_}",
+                            f"{key_[0]} rebinds the context `{name_}` inside the loop that renders with it: an operand rendered after the rebinding gets the flags meant for an earlier one "
+                            "(the same query renders differently depending on what precedes it)", where=f"{src_[2]}:{src_[1]}" if src_ else "", rule="R3")
+    run.ob("C08 no rendering context is rebound inside the loop that consumes it", "all renderers", not seen_carried, detail=f"{len(seen_carried)} rebinding(s)")
     # str()/format bypass of Node-kinded attributes
     for c, (sk, ev) in skeletons(program).items():
         na = node_attrs(program, c)
